@@ -363,6 +363,9 @@ class Arnoldi(KrylovBased):
 
         """
         assert self.N_cache >= self.N_max
+        # clear the state of a previous call: `_to_cache` does not pop old entries
+        self._cache = []
+        self._h_krylov[:] = 0.0
         N = self._build_krylov()
         E0 = self.Es[N - 1, : self.num_ev]
         if self.E_shift is not None:
